@@ -439,6 +439,9 @@ func (c *Ctx) stageEntries(rng *Rng) {
 			}
 			for j := range r.Ops {
 				o := &r.Ops[j]
+				if int(o.Steps) > c.Ev.Probes["entry_op_max_steps"] {
+					c.Ev.Probes["entry_op_max_steps"] = int(o.Steps)
+				}
 				if o.Status == "panic" || o.Status == "budget" {
 					var e Op
 					for _, x := range sp.Tasks[0] {
